@@ -1,14 +1,18 @@
 package c14
 
 import (
+	"context"
 	"fmt"
+	"runtime"
 	"strings"
 	"sync"
 	"testing"
 
+	"verif/kit"
 	"verif/sched"
 
 	"github.com/open2b/scriggo"
+	"github.com/open2b/scriggo/native"
 )
 
 var visibleOps = func() map[int]bool {
@@ -19,7 +23,18 @@ var visibleOps = func() map[int]bool {
 	return m
 }()
 
-func scenario(p Prog, bound int) *sched.Scenario {
+var helperPkg = native.Packages{"helper": native.Package{Name: "helper", Declarations: native.Declarations{
+	"Send": func(ch chan int, v int) { ch <- v },
+}}}
+
+func (p Prog) gcSource() string {
+	if p.GcSrc != "" {
+		return p.GcSrc
+	}
+	return p.Src
+}
+
+func scenario(p Prog, bound int, withCtx bool) *sched.Scenario {
 	var once sync.Once
 	var prog *scriggo.Program
 	var buildErr error
@@ -27,12 +42,12 @@ func scenario(p Prog, bound int) *sched.Scenario {
 	var gcErr error
 	prepare := func() {
 		once.Do(func() {
-			prog, buildErr = scriggo.Build(scriggo.Files{"main.go": []byte(p.Src)}, &scriggo.BuildOptions{AllowGoStmt: true})
-			want, gcErr = sched.GCReference(p.Src)
+			prog, buildErr = scriggo.Build(scriggo.Files{"main.go": []byte(p.Src)}, &scriggo.BuildOptions{AllowGoStmt: true, Packages: helperPkg})
+			want, gcErr = sched.GCReference(p.gcSource())
 		})
 	}
 	return &sched.Scenario{
-		Name:      p.Name,
+		Name:      p.Name + map[bool]string{false: "", true: "+ctx"}[withCtx],
 		Bound:     bound,
 		MaxPoints: 5000,
 		Visible:   func(ev *scriggo.VerifEvent) bool { return visibleOps[sched.AbsOp(ev)] },
@@ -51,11 +66,18 @@ func scenario(p Prog, bound int) *sched.Scenario {
 						status = fmt.Sprintf("host panic: %v", r)
 					}
 				}()
-				err := prog.Run(&scriggo.RunOptions{Print: func(v any) {
+				opts := &scriggo.RunOptions{Print: func(v any) {
 					mu.Lock()
 					fmt.Fprint(&out, v)
 					mu.Unlock()
-				}})
+				}}
+				if withCtx {
+					// a cancellable context that is never cancelled: channel operations take the select-with-done path
+					ctx, cancel := context.WithCancel(context.Background())
+					defer cancel()
+					opts.Context = ctx
+				}
+				err := prog.Run(opts)
 				if err != nil {
 					status = "run error: " + err.Error()
 				} else {
@@ -114,7 +136,14 @@ func TestVerif(t *testing.T) {
 			}
 			var scs []*sched.Scenario
 			for _, p := range Programs(tier) {
-				scs = append(scs, scenario(p, bound))
+				scs = append(scs, scenario(p, bound, false))
+			}
+			// the same programs with a cancellable (never cancelled) context, for the
+			// smaller ones: every channel operation then goes through reflect.Select
+			for _, p := range Programs(tier) {
+				if tier == "thorough" || !strings.HasPrefix(p.Name, "fan-") && !strings.HasPrefix(p.Name, "pipeline-s2") {
+					scs = append(scs, scenario(p, bound, true))
+				}
 			}
 			return scs
 		},
@@ -124,5 +153,73 @@ func TestVerif(t *testing.T) {
 			}
 			return 20000
 		},
+		Extra: sched.RaceCompanion("C14"),
 	})
+}
+
+// TestRace is the free-running companion (meaningful in the -race build): the
+// same programs, no scheduler, real parallelism; output compared with gc's.
+func TestRace(t *testing.T) {
+	iters := 15
+	if kit.Tier(nil) == "thorough" {
+		iters = 150
+	}
+	total := 0
+	for _, p := range Programs(kit.Tier(nil)) {
+		prog, err := scriggo.Build(scriggo.Files{"main.go": []byte(p.Src)}, &scriggo.BuildOptions{AllowGoStmt: true, Packages: helperPkg})
+		if err != nil {
+			t.Fatalf("build %s: %v", p.Name, err)
+		}
+		want, err := sched.GCReference(p.gcSource())
+		if err != nil {
+			t.Fatalf("gc %s: %v", p.Name, err)
+		}
+		if strings.HasPrefix(p.Name, "loopvar") {
+			continue // known finding of the scheduled part; its output is schedule-dependent in Scriggo
+		}
+		for _, procs := range []int{1, 4, 16} {
+			runtime.GOMAXPROCS(procs)
+			for _, withCtx := range []bool{false, true} {
+				for i := 0; i < iters; i++ {
+					var mu sync.Mutex
+					var out strings.Builder
+					opts := &scriggo.RunOptions{Print: func(v any) {
+						mu.Lock()
+						fmt.Fprint(&out, v)
+						mu.Unlock()
+					}}
+					var cancel context.CancelFunc
+					if withCtx {
+						opts.Context, cancel = context.WithCancel(context.Background())
+					}
+					status := "exit 0"
+					func() {
+						defer func() {
+							if r := recover(); r != nil {
+								status = fmt.Sprintf("host panic: %v", r)
+							}
+						}()
+						if err := prog.Run(opts); err != nil {
+							status = "run error: " + err.Error()
+						}
+					}()
+					if cancel != nil {
+						cancel()
+					}
+					mu.Lock()
+					got := out.String() + "[" + status + "]"
+					mu.Unlock()
+					total++
+					if got != want {
+						fam := p.Name
+						if k := strings.IndexByte(fam, '-'); k > 0 {
+							fam = fam[:k]
+						}
+						t.Fatalf("MISMATCH-KEY free-running-output-differs-from-gc|family=%s\nMISMATCH program %s (GOMAXPROCS=%d ctx=%v iteration %d)\n%s\ngc:      %q\nscriggo: %q", fam, p.Name, procs, withCtx, i, p.Src, want, got)
+					}
+				}
+			}
+		}
+	}
+	fmt.Printf("race-companion: %d free-running runs at GOMAXPROCS 1,4,16 with and without context, outputs equal gc's, no race reported\n", total)
 }
